@@ -8,7 +8,7 @@ d = os.path.join(root, "seeded", name)
 log = open(os.path.join(d, "confirm.log")).read()
 blocks = log.split("## confirm ")
 last = blocks[-1]
-subs = sorted(set(re.findall(r"replay=found/%s/([a-z_0-9]+)-" % pid, last)))
+subs = sorted(set(re.findall(r"replay=found/%s/([A-Za-z_0-9]+)-" % pid, last)))
 meta = {
     "property": pid,
     "breaks": needs.split("||")[0].strip(),
